@@ -28,9 +28,11 @@ KindEvents == { [k |-> "Start", b |-> <<97>>], [k |-> "End", b |-> <<97>>],
 Indents == {[on |-> TRUE, ch |-> c, size |-> n] : c \in {32, 9}, n \in Widths}
 
 \* ---------------------------------------------------------------- build
-Vals == { <<>>, <<97>>, <<60>>, <<38>>, <<34>>, <<39>>, <<62>>, <<93, 93, 62>>, <<45, 45>>, <<63, 62>>, <<32>>,
+\* (Latin Extended-A letters whose code points end in 0x22 0x26 0x27 0x3C 0x3E and whose UTF-8 forms end in A2 A6 A7 BC BE)
+LOWB == <<196,162,196,166,196,167,196,188,196,190>>
+Vals == { LOWB, <<>>, <<97>>, <<60>>, <<38>>, <<34>>, <<39>>, <<62>>, <<93, 93, 62>>, <<45, 45>>, <<63, 62>>, <<32>>,
           <<195, 169>>, <<38, 97, 109, 112, 59>>, <<32, 97, 32>> }
-AV == { <<>>, <<60>>, <<38>>, <<34>>, <<39>>, <<32, 97, 32>>, <<62>> }
+AV == { LOWB, <<>>, <<60>>, <<38>>, <<34>>, <<39>>, <<32, 97, 32>>, <<62>> }
 K1 == <<107>>   K2 == <<107, 50>>
 NA == <<97>>    NE == <<195, 169>>   NB == <<97, 58, 98>>
 Descs ==
